@@ -422,6 +422,37 @@ func oracleVhosts(in, out string) {
 						fail("alt-host-sound alt=%s host=%s proxyDomain=%s", wire.Enc(a), wire.Enc(hostname), wire.Enc(pd))
 					}
 				}
+			case f[0] == "msh":
+				// most specific wins: exact key, else the LONGEST wildcard key whose suffix matches
+				needle := wire.Dec(f[1])
+				got, _ := s.vhStep("vhosts", f)
+				want := "none"
+				sp, wc := wire.DecList(f[2]), wire.DecList(f[3])
+				n := needle
+				exact := sp
+				if strings.HasPrefix(needle, "*") {
+					exact = wc
+					n = needle[1:]
+				}
+				for _, h := range exact {
+					if h == needle {
+						want = wire.Enc(h)
+					}
+				}
+				if want == "none" {
+					best := ""
+					for _, h := range wc {
+						if strings.HasSuffix(n, h[1:]) && len(h) > len(best) {
+							best = h
+						}
+					}
+					if best != "" {
+						want = wire.Enc(best)
+					}
+				}
+				if got != want {
+					fail("most-specific-host needle=%s want=%s got=%s", f[1], want, got)
+				}
 			case f[0] == "sel":
 				s.vhStep("vhosts", f)
 				a := asciiLower(wire.Dec(f[1]))
